@@ -437,9 +437,29 @@ func runPart(p Part, bin, tier string, deadline time.Time, workers int) partResu
 				var stderr bytes.Buffer
 				cmd.Stderr = &stderr
 				cmd.Stdout = &stderr
-				err := cmd.Run()
+				hung := false
+				var err error
+				if p.HangSeconds > 0 {
+					// a worker checks its deadline between cases; one that overruns it by HangSeconds is stuck inside a single case
+					if err = cmd.Start(); err == nil {
+						done := make(chan error, 1)
+						go func() { done <- cmd.Wait() }()
+						select {
+						case err = <-done:
+						case <-time.After(time.Duration(left*float64(time.Second)) + time.Duration(p.HangSeconds)*time.Second):
+							hung = true
+							cmd.Process.Kill()
+							err = <-done
+						}
+					}
+				} else {
+					err = cmd.Run()
+				}
 				mu.Lock()
-				if err != nil {
+				if hung {
+					last, _ := os.ReadFile(progress)
+					res.crashes = append(res.crashes, fmt.Sprintf("worker for scenarios %v of %s did not come back %d s after its deadline: stuck inside a single case; case in flight: %s", idx, p.Harness, p.HangSeconds, string(last)))
+				} else if err != nil {
 					tail := stderr.String()
 					if len(tail) > 6000 {
 						tail = tail[:3000] + "\n...\n" + tail[len(tail)-3000:]
